@@ -545,6 +545,10 @@ class CallMixin:
         co = self.classobj_bound(fv)
         if co is not None:
             return self.instantiate_symbolic(fv, co, args, kwargs, star, dstar, node)
+        if self.class_of(fv) is None:
+            for cand in self.callable_candidates:
+                if self.branch(fv == cand):
+                    return self.call(cand, args, kwargs, star, dstar, node)
         c = self.require_class(fv, 'callee')
         if c.builtin and c.is_subclass(builtin_class('UserCallable')):
             return self.oracle_call(fv, args, kwargs, star, dstar, node)
